@@ -4,6 +4,7 @@ Kernel-decided side conditions of the C03 proof about data regenerated from /rep
 re-decided only when the data changes.
 -/
 import NetqasmVerif.Model.Asm
+import NetqasmVerif.Lemmas.AsmPure
 import NetqasmVerif.Gen.AsmPassTables
 import NetqasmVerif.Gen.InstrTable
 namespace NQ.AsmObl
@@ -33,5 +34,10 @@ theorem num_scratch : Gen.numScratch = 16 := by decide
 
 /-- the macro pass of the tree under test is token aware (F4 is fixed there) -/
 theorem macro_probe_fixed : Gen.macroTokenAware = true := by decide
+
+/-- every immediate position of every vanilla instruction is exempt from constant replacement (so an
+assembled program is a fixed point of the passes) -/
+theorem imm_exempt :
+    Gen.vanillaRows.all (fun r => immExempt Gen.excTable r.mn 0 r.shape) = true := by decide +kernel
 
 end NQ.AsmObl
